@@ -54,6 +54,9 @@ type Pool struct {
 	n        int
 	timeout  time.Duration
 	extraEnv []string
+	// MemLimitKB > 0 runs every worker under `ulimit -v` so that a runaway allocation kills the worker
+	// (attributed to its job) instead of the machine.
+	MemLimitKB int64
 	Crashes  int
 	Timeouts int
 	mu       sync.Mutex
@@ -91,7 +94,12 @@ func (p *Pool) spawn() (*worker, error) {
 	if err != nil {
 		return nil, err
 	}
-	cmd := exec.Command(os.Args[0], "-test.run", "^"+p.testName+"$", "-test.count=1", "-test.timeout=0")
+	args := []string{"-test.run", "^" + p.testName + "$", "-test.count=1", "-test.timeout=0"}
+	cmd := exec.Command(os.Args[0], args...)
+	if p.MemLimitKB > 0 {
+		sh := fmt.Sprintf("ulimit -v %d; exec \"$0\" \"$@\"", p.MemLimitKB)
+		cmd = exec.Command("/bin/sh", append([]string{"-c", sh, os.Args[0]}, args...)...)
+	}
 	cmd.Env = append(os.Environ(), "VERIF_WORKER=1", "GOMAXPROCS=1", "VERIF_OUT=")
 	cmd.Env = append(cmd.Env, p.extraEnv...)
 	cmd.ExtraFiles = []*os.File{jobR, resW}
